@@ -171,6 +171,15 @@ TABLE = {
             "lxml against the shipped XSD; a disagreement between the two validators is a machinery failure; the library's "
             "own reader must accept the file.",
             "TLC, the XSD transcription (cross-validated against lxml on every document)"),
+    "C19": ("Render.tla / RenderTree.tla / MC_Render.tla / Trace_Render.tla",
+            "Three parts. (1) The draw-parameter tree (87 dataclass nodes, generated from dataclasses.fields and re-checked at "
+            "every run) with the action Set(node, field, v): TLC checks over all Set histories (depth 2) that every descendant "
+            "declaring the field holds v and nothing else changes, idempotence, commutation, last-wins. (2) The time-window "
+            "contract Drawn(o, begin, end) over 34 obstacle descriptors x windows (t = end an EITHER-band), lanelet filters. "
+            "(3) Totality over flag combinations x archetypes x windows. Every case is drawn and rendered with the Agg backend; "
+            "the patches collected between draw and render are mapped to (obstacle, time) by lattice cell and TLC validates "
+            "propagation, drawn set, lanelet set and totality.",
+            "TLC, the generated parameter-tree table, patch -> (obstacle, time) mapping by lattice cell; pixels are not inspected"),
 }
 
 PENDING_REASON = "check not built yet in this round (specification module planned in DESIGN.md section 4); not claimed"
